@@ -172,7 +172,10 @@ func RunCase(spec CaseSpec) (res CaseResult) {
 				sig = fmt.Sprintf("%s:panic:%s:%s", br.Phase, PanicSite(br.Panic), NormalizeErr(br.Err.Error()))
 			}
 			res.Death = sig
-			if def.DeathIsViolation {
+			if c.Flags["valset-empty"] {
+				res.Death = "out-of-model:validator-set-empty:" + sig
+				st.Count("out-of-model.validator-set-empty")
+			} else if def.DeathIsViolation {
 				c.Violations = append(c.Violations, Violation{Property: spec.Prop, Monitor: "blockfail", Sig: sig, Height: br.Height, Phase: br.Phase,
 					Detail: map[string]interface{}{"err": firstLines(br.Err.Error(), 3), "panic": firstLines(br.Panic, 40)}})
 			}
